@@ -575,6 +575,11 @@ func cmdDriveStorage(args []string) error {
 		var ref []stRefList
 		for i := 0; i < nl; i++ {
 			content := rndContent(rnd)
+			if out.n == 0 && i == 0 {
+				// the first storage of a run has a list with more than 16 MiB in front of its rules: an offset inside a
+				// list is a 32-bit number
+				content = strings.Repeat("! "+strings.Repeat("padding ", 512)+"\n", 4200) + "||beyond.example^\n0.0.0.0 far.example\nfar.example##.sel\n||last.example^$script"
+			}
 			rl := renderedList{id: listIDs[idNames[perm[i]]], ic: rnd.Intn(3) == 0, content: content}
 			rls = append(rls, rl)
 			// the reference parse, line by line, by the real NewRule
